@@ -15,6 +15,13 @@ def run():
         chk.add_model("BarrierImpl tournament, 5 participants x 2 phases", vlib.model_check("BarrierImpl", "BarrierImpl_5.cfg", timeout=3000))
     r = vlib.model_check("BarrierImpl", "BarrierImpl_dev.cfg", expect_ok=False, timeout=600)
     chk.add_model("BarrierImpl/variant publish_before_completion (must violate)", r, note="violated: %s" % r["violated"])
+    chk.add_model("BarrierDropImpl (tournament arrival + arrive_and_drop / expected_adjustment; 3 participants, one drops)",
+                  vlib.model_check("BarrierDropImpl", "BarrierDropImpl.cfg", timeout=900))
+    rb = vlib.model_check("BarrierDropImpl", "BarrierDropImpl_dev.cfg", expect_ok=False, timeout=900)
+    chk.add_model("BarrierDropImpl/variant drop_after_arrive (must violate)", rb, note="violated: %s" % rb["violated"])
+    if chk.thorough():
+        chk.add_model("BarrierDropImpl (4 participants, one drops in the middle phase)",
+                      vlib.model_check("BarrierDropImpl", "BarrierDropImpl_4.cfg", timeout=3000))
     (binary,) = vlib.build_harness(["lbeo_harness"])
     nruns = 64 if chk.thorough() else 16
     nhist = 250 if chk.thorough() else 100
